@@ -1,0 +1,9 @@
+//go:build !verif
+
+package util
+
+// verification hooks (build tag "verif"); no-ops in regular builds
+
+func verifReadInt(path string) (int, error, bool) { return 0, nil, false }
+
+func verifWriteInt(value int, path string, atomic bool) (error, bool) { return nil, false }
